@@ -178,6 +178,11 @@ pub(crate) struct ProxyId(Uuid);
 
 impl ProxyId {
     pub(crate) fn new_v4() -> Self {
+        #[cfg(feature = "verif-hooks")]
+        if let Some(uuid) = aldrin_core::verif::next_uuid() {
+            return Self(uuid);
+        }
+
         Self(Uuid::new_v4())
     }
 }
